@@ -182,7 +182,8 @@ def gen(seed, thorough=False):
             plan.append(e)
         else:
             plan.append({'site': 'channel', 'ident': lf, 'a': 'stall',
-                         'pos': rng.randint(0, 60), 'dt': rng.choice([0.005, 2.0, 45.0])})
+                         'pos': rng.randint(0, 60), 'dt': rng.choice([0.005, 2.0, 45.0]),
+                         'after_close': rng.random() < 0.4})
     knobs = {'pipe_capacity': rng.choice([16, 64, 512, 4096, 65536])}
     if big >= 400:
         # (megabytes through a 16-byte pipe cost millions of scheduler steps: keep it bounded)
